@@ -755,3 +755,138 @@ package sio
 //@     update handled = handled + 1
 //@   ensures mwerr ==> handled == 0 [C12.ev.rejected.nothandled]
 //@   ensures handled <= 1 [C12.ev.handled.once]
+
+// ---------------------------------------------------------------------------------------------
+// C05. The per-connection routing tables are exact maps: a namespace name is looked up by string equality (so
+// look-alike and prefix names cannot collide), an entry is written only under the socket's own namespace name / id,
+// and every other entry is untouched.
+//@ func (*serverSocketStore).set
+//@   requires s.socketsByID != nil && s.socketsByNsp != nil && socket != nil && socket.nsp != nil
+//@   modifies mapof(s.socketsByID), mapof(s.socketsByNsp)
+//@   ensures (old(socket.nsp.name) in s.socketsByNsp) && s.socketsByNsp[old(socket.nsp.name)] == socket [C05.store.srv.set.nsp]
+//@   ensures (old(socket.id) in s.socketsByID) && s.socketsByID[old(socket.id)] == socket [C05.store.srv.set.id]
+//@   ensures forall k string :: k != old(socket.nsp.name) ==> (k in s.socketsByNsp) == old(k in s.socketsByNsp) && s.socketsByNsp[k] == old(s.socketsByNsp[k]) [C05.store.srv.set.frame]
+//@   ensures forall k SocketID :: k != old(socket.id) ==> (k in s.socketsByID) == old(k in s.socketsByID) && s.socketsByID[k] == old(s.socketsByID[k]) [C05.store.srv.set.frame.id]
+
+//@ func (*serverSocketStore).getByNsp
+//@   requires s.socketsByNsp != nil
+//@   ensures ok == (nsp in s.socketsByNsp) && (ok ==> socket == s.socketsByNsp[nsp]) [C05.store.srv.get]
+
+//@ func (*serverSocketStore).getByID
+//@   requires s.socketsByID != nil
+//@   ensures ok == (sid in s.socketsByID) && (ok ==> socket == s.socketsByID[sid]) [C05.store.srv.getid]
+
+// Removing a socket by id removes exactly its two entries: its id and ITS namespace - nobody else's.
+//@ func (*serverSocketStore).removeByID
+//@   requires s.socketsByID != nil && s.socketsByNsp != nil
+//@   requires (sid in s.socketsByID) ==> s.socketsByID[sid] != nil && s.socketsByID[sid].nsp != nil
+//@   modifies mapof(s.socketsByID), mapof(s.socketsByNsp)
+//@   ensures !(sid in s.socketsByID) [C05.store.srv.remove.id]
+//@   ensures old(sid in s.socketsByID) ==> !(old(s.socketsByID[sid].nsp.name) in s.socketsByNsp) [C05.store.srv.remove.nsp]
+//@   ensures forall k string :: (!old(sid in s.socketsByID) || k != old(s.socketsByID[sid].nsp.name)) ==> (k in s.socketsByNsp) == old(k in s.socketsByNsp) && s.socketsByNsp[k] == old(s.socketsByNsp[k]) [C05.store.srv.remove.frame]
+//@   ensures forall k SocketID :: k != sid ==> (k in s.socketsByID) == old(k in s.socketsByID) && s.socketsByID[k] == old(s.socketsByID[k]) [C05.store.srv.remove.frame.id]
+
+//@ func (*clientSocketStore).get
+//@   requires s.sockets != nil
+//@   ensures ok == (nsp in s.sockets) && (ok ==> socket == s.sockets[nsp]) [C05.store.cli.get]
+
+//@ func (*clientSocketStore).set
+//@   requires s.sockets != nil && socket != nil
+//@   modifies mapof(s.sockets)
+//@   ensures (old(socket.namespace) in s.sockets) && s.sockets[old(socket.namespace)] == socket [C05.store.cli.set]
+//@   ensures forall k string :: k != old(socket.namespace) ==> (k in s.sockets) == old(k in s.sockets) && s.sockets[k] == old(s.sockets[k]) [C05.store.cli.set.frame]
+
+//@ func (*clientSocketStore).remove
+//@   requires s.sockets != nil
+//@   modifies mapof(s.sockets)
+//@   ensures !(namespace in s.sockets) [C05.store.cli.remove]
+//@   ensures forall k string :: k != namespace ==> (k in s.sockets) == old(k in s.sockets) && s.sockets[k] == old(s.sockets[k]) [C05.store.cli.remove.frame]
+
+//@ func (*nspStore).get
+//@   requires s.nsps != nil
+//@   ensures ok == (name in s.nsps) && (ok ==> nsp == s.nsps[name]) [C05.store.nsp.get]
+
+// Server-side routing of a decoded packet ('' means '/'): a packet reaches socket.onPacket only when the connection has a
+// socket for exactly that namespace and the packet is neither CONNECT nor CONNECT_ERROR; a CONNECT for a namespace
+// not joined yet goes to connect; every other combination closes the connection and dispatches nothing.
+//@ func (*serverConn).onParserFinish$1
+//@   opt safety off
+//@   requires header != nil && c != nil
+//@   ghost looked int = 0
+//@   ghost found bool = false
+//@   ghost target *serverSocket = nil
+//@   ghost key string = ""
+//@   ghost dispatched int = 0
+//@   ghost connects int = 0
+//@   ghost closes int = 0
+//@   callsite (*serverSocketStore).getByNsp skip
+//@     requires recv == c.sockets && arg0 == ((old(header.Namespace) == "") ? "/" : old(header.Namespace)) [C05.route.lookup.exact]
+//@     update looked = looked + 1
+//@     update key = arg0
+//@     updateafter found = result1
+//@     updateafter target = result0
+//@   callsite (*serverSocket).onPacket skip
+//@     requires looked == 1 && found && recv == target && arg0 == header && header.Namespace == key [C05.route.nsp]
+//@     requires header.Type != parser.PacketTypeConnect && header.Type != parser.PacketTypeConnectError [C05.route.noconnect.to.socket]
+//@     update dispatched = dispatched + 1
+//@   callsite (*serverConn).connect skip
+//@     requires looked == 1 && !found && header.Type == parser.PacketTypeConnect && arg0 == header [C05.route.connect.once.per.nsp]
+//@     update connects = connects + 1
+//@   callsite (*serverConn).close skip
+//@     update closes = closes + 1
+//@   callsite onFatalError skip
+//@   ensures dispatched + connects + closes == 1 [C05.route.one]
+//@   ensures !found && old(header.Type) != parser.PacketTypeConnect ==> closes == 1 && dispatched == 0 && connects == 0 [C05.route.invalid]
+//@   ensures found && (old(header.Type) == parser.PacketTypeConnect || old(header.Type) == parser.PacketTypeConnectError) ==> closes == 1 && dispatched == 0 && connects == 0 [C05.route.invalid.reconnect]
+
+// Client-side routing: the packet goes to the socket registered under exactly the packet's namespace, or nowhere.
+//@ func (*Manager).onParserFinish
+//@   opt safety off
+//@   requires header != nil && m != nil
+//@   ghost looked int = 0
+//@   ghost found bool = false
+//@   ghost target *clientSocket = nil
+//@   ghost dispatched int = 0
+//@   callsite (*clientSocketStore).get skip
+//@     requires recv == m.sockets && arg0 == ((old(header.Namespace) == "") ? "/" : old(header.Namespace)) [C05.route.client.lookup.exact]
+//@     update looked = looked + 1
+//@     updateafter found = result1
+//@     updateafter target = result0
+//@   callsite (*clientSocket).onPacket
+//@     requires looked == 1 && found && recv == target && arg0 == header [C05.route.client]
+//@     update dispatched = dispatched + 1
+//@   ensures dispatched == (found ? 1 : 0) [C05.route.client.one]
+
+// Leaving a namespace detaches exactly that socket from the connection's tables.
+//@ func (*serverConn).remove
+//@   opt safety off
+//@   requires socket != nil && socket.nsp != nil
+//@   ghost present bool = false
+//@   ghost rem int = 0
+//@   ghost nsprem int = 0
+//@   callsite (*serverSocketStore).getByID skip
+//@     requires recv == c.sockets && arg0 == socket.id
+//@     updateafter present = result1
+//@   callsite (*serverSocketStore).removeByID skip
+//@     requires recv == c.sockets && arg0 == socket.id [C05.remove.own.id]
+//@     update rem = rem + 1
+//@   callsite (*nspStore).remove skip
+//@     requires recv == c.nsps && arg0 == socket.nsp.name [C05.remove.own.nsp]
+//@     update nsprem = nsprem + 1
+//@   ensures present ==> rem == 1 && nsprem == 1 [C05.remove.detaches]
+//@   ensures !present ==> rem == 0 && nsprem == 0 [C05.remove.absent]
+
+// All frames of one Socket.IO packet (header frame + binary attachments) enter the connection's shared queue in ONE
+// call, in order - frames of packets of other namespaces cannot get in between.
+//@ func (*serverConn).sendBuffers
+//@   opt safety off
+//@   ghost queued int = 0
+//@   callsite onFatalError skip
+//@   callsite (*serverConn).packet skip
+//@     requires queued == 0 && len(arg0) == old(len(buffers)) [C05.send.atomic]
+//@     requires forall k int :: 0 <= k && k < len(arg0) ==> arg0[k] != nil && arg0[k].IsBinary == (k > 0) && arg0[k].Type == 4 && arg0[k].Data == old(buffers[k]) [C05.send.frames]
+//@     update queued = queued + 1
+//@   loop 0 invariant len(packets) == len(old(buffers)) && len(buffers) == len(old(buffers)) - 1 && arr(buffers) == arr(old(buffers)) && off(buffers) == off(old(buffers)) + 1
+//@   loop 0 invariant packets[0] != nil && !packets[0].IsBinary && packets[0].Type == 4 && packets[0].Data == old(buffers[0])
+//@   loop 0 invariant forall k int :: 1 <= k && k <= rangeindex + 1 ==> packets[k] != nil && packets[k].IsBinary && packets[k].Type == 4 && packets[k].Data == old(buffers[k])
+//@   ensures queued <= 1 [C05.send.once]
